@@ -131,7 +131,7 @@ PROPS.update({
         "assumptions": ["source and target are well-formed pointer-free names under the parser's character policy (is_cname), both non-root: the property's quantifier",
                         "on an Err exit taken while an iterator is still alive, 'the packet object is unchanged' is not stated (Verus does not resolve the prophecy of the live iterator at a `?` exit); it is stated for Ok exits",
                         "units with iterator client loops are verified with --no-lifetime"],
-        "level_text": "replace_raw is proved EQUAL to replace_spec (label-aligned, case-insensitive exact/suffix match; result = kept labels ++ target; TooLong exactly when the result would exceed 255) for all well-formed names; copy_with_replaced_name fails exactly when replace_spec is TooLong and otherwise appends the compressed form (whole labels + at most one pointer) of the rewritten -- or, without a match, the original -- expanded name, which is again a clean name; F8 for the renamer (see C06): the invariant dict_ok holds from SuffixDict::new() to the end of Renamer::rename_with_raw_names, across every section walk and every RDLENGTH fix-up (window lemmas), so every name the renamer writes -- question, owner names, NS/CNAME/PTR/MX targets, both SOA names -- is valid under the parser's name rule and decodes, in the output, to renamed_name(expanded input name) == the rewritten name or, without a match, the original, up to ASCII case; every name-bearing record type writes RDLENGTH == bytes appended after the 10-byte header (one obligation per arm: NS/CNAME/PTR, MX, SOA); the OPT record is copied by the generic arm in place; the section walks only read the packet object; header copied. F9 for the renamer, 'renaming returns an accepted packet': r matches Ok(v) && wf_packet(input) ==> wf_packet(v) -- every record written is proved to be one the parser accepts in its section (rename_response_section: out_rdata per arm -- one valid name ending the record for NS/CNAME/PTR, preference + name for MX, two names + twenty bytes for SOA, verbatim data for the rest incl. the option list of OPT and the pointer-free name of DNAME; the OPT owner is the root name, which no non-root source matches, so it is written as its single byte), sections assembled record by record (rrs of the output per section, stability under growth), question = valid name + the input's four fixed bytes (q_written), policy clauses from the copied header (lemma_accept). NOT proved by contracts: whole-message relation as one statement (every name is proved, where it is written, to decode to the rewritten/original name up to case, and every non-name field is copied, but the decode of the whole output is not re-assembled; differential replay covers it); ParsedPacket::rename_with_raw_names (re-parse wrapper with its four assert_eq! on the EDNS summary) is not under contract",
+        "level_text": "replace_raw is proved EQUAL to replace_spec (label-aligned, case-insensitive exact/suffix match; result = kept labels ++ target; TooLong exactly when the result would exceed 255) for all well-formed names; copy_with_replaced_name fails exactly when replace_spec is TooLong and otherwise appends the compressed form (whole labels + at most one pointer) of the rewritten -- or, without a match, the original -- expanded name, which is again a clean name; F8 for the renamer (see C06): the invariant dict_ok holds from SuffixDict::new() to the end of Renamer::rename_with_raw_names, across every section walk and every RDLENGTH fix-up (window lemmas), so every name the renamer writes -- question, owner names, NS/CNAME/PTR/MX targets, both SOA names -- is valid under the parser's name rule and decodes, in the output, to renamed_name(expanded input name) == the rewritten name or, without a match, the original, up to ASCII case; every name-bearing record type writes RDLENGTH == bytes appended after the 10-byte header (one obligation per arm: NS/CNAME/PTR, MX, SOA); the OPT record is copied by the generic arm in place; the section walks only read the packet object; header copied. F9 for the renamer, 'renaming returns an accepted packet': r matches Ok(v) && wf_packet(input) ==> wf_packet(v) -- every record written is proved to be one the parser accepts in its section (rename_response_section: out_rdata per arm -- one valid name ending the record for NS/CNAME/PTR, preference + name for MX, two names + twenty bytes for SOA, verbatim data for the rest incl. the option list of OPT and the pointer-free name of DNAME; the OPT owner is the root name, which no non-root source matches, so it is written as its single byte), sections assembled record by record (rrs of the output per section, stability under growth), question = valid name + the input's four fixed bytes (q_written), policy clauses from the copied header (lemma_accept). F10 for the renamer, 'every name that equals the source (or ends with it on a label boundary) has that part replaced by the target, while every other name, the header, the counts, record order, types, classes, TTLs, opaque data and the OPT record are unchanged up to name case': r matches Ok(v) && wf_packet(input) ==> msg_ren(v, input, target, source, suffix) (spec/racc.rs) -- header byte for byte; question name == renamed_name(expanded input name) up to case, type/class byte for byte; then section by section (at the sections' starts as the reader computes them in both packets) and record by record in order (recs_ren): owner name, the target of NS/CNAME/PTR, the exchange of MX and both SOA names each equal, up to case, to renamed_name of the input's expanded name -- renamed_name being replace_spec's rewritten name on a match and the name itself otherwise -- and type/class/TTL, MX preference, the twenty SOA bytes, and for every other type (OPT and its options included) RDLENGTH and data byte for byte. NOT proved by contracts: the corollary 'renaming a name to itself leaves the message unchanged' as a separate lemma (it is msg_ren with target == source, where renamed_name(n, s, s) equals n up to case by replace_spec's definition; not written out); ParsedPacket::rename_with_raw_names (re-parse wrapper with its four assert_eq! on the EDNS summary) is not under contract -- both stay with the differential replay",
         "technique": "Verus functional contract of replace_raw against a spec function + per-record bookkeeping obligations on the extracted renamer; remaining clauses by differential replay (stated)",
     },
     "C13": {
